@@ -64,7 +64,12 @@ func zzStep(fs filesystem.Filespace, ref *reftree.Node, nops int) (rootGone bool
 	op := nd.Choose("op", nops)
 	name := zzOpName[op]
 	L := nd.Param("L", 3)
-	p := nd.StringUpTo("p", L)
+	var p string
+	if zzTemplates {
+		p = zzTemplatePath("path")
+	} else {
+		p = nd.StringUpTo("p", L)
+	}
 	segs, climbs := reftree.Norm(p)
 	before := ref.Clone()
 	undefined := climbs
@@ -192,15 +197,38 @@ func zzStep(fs filesystem.Filespace, ref *reftree.Node, nops int) (rootGone bool
 	case zzWriter:
 		c1 := nd.BytesUpTo("chunk1", 1)
 		c2 := nd.BytesUpTo("chunk2", 1)
+		// zero, one or two Write calls (a writer closed without any Write
+		// leaves an empty file); both chunks go through ONE caller buffer that
+		// is overwritten between and after the calls
+		nw := nd.Choose("writes", 3)
 		w, err := fs.Writer(p)
+		var all []byte
+		buf := make([]byte, 1)
 		if err == nil {
-			w.Write(c1)
-			w.Write(c2)
+			if nw >= 1 {
+				n := copy(buf, c1)
+				w.Write(buf[:n])
+				all = append(all, c1...)
+				buf[0] ^= 0xff
+			}
+			if nw >= 2 {
+				n := copy(buf, c2)
+				w.Write(buf[:n])
+				all = append(all, c2...)
+				buf[0] ^= 0xff
+			}
 			nd.Assert(w.Close() == nil, "C01/writer-close")
+			buf[0] ^= 0x55
+		} else {
+			if nw >= 1 {
+				all = append(all, c1...)
+			}
+			if nw >= 2 {
+				all = append(all, c2...)
+			}
 		}
-		all := append(append([]byte{}, c1...), c2...)
-		if len(c1) > 0 {
-			c1[0] ^= 0xff
+		if all == nil {
+			all = []byte{}
 		}
 		if undefined || len(segs) == 0 {
 			if len(segs) > 0 {
@@ -243,7 +271,12 @@ func zzStep(fs filesystem.Filespace, ref *reftree.Node, nops int) (rootGone bool
 			r.Close()
 		}
 	case zzCopyFile, zzCopyDir, zzCopy:
-		q := nd.StringUpTo("q", L)
+		var q string
+		if zzTemplates {
+			q = zzTemplatePath("dest")
+		} else {
+			q = nd.StringUpTo("q", L)
+		}
 		dsegs, dclimbs := reftree.Norm(q)
 		if len(segs) == 0 {
 			// source is the root: every destination lies inside the source,
@@ -366,6 +399,47 @@ func ZZVerifC01View() {
 	}
 	nd.Assert(reftree.Same(root, ref, nil), "C01/view-parent-tree")
 	nd.Reach("C01/view-end")
+}
+
+// zzTemplates: the two-step harness draws its paths from structural templates
+// over the existing names (a, a/f, a/d, g) and fresh names.
+var zzTemplates bool
+
+func zzTemplatePath(label string) string {
+	switch nd.Choose(label, nd.Param("PT", 7)) {
+	case 0:
+		return "a/f"
+	case 1:
+		return "n"
+	case 2:
+		return "a"
+	case 3:
+		return "g"
+	case 4:
+		return "a/n"
+	case 5:
+		return "a/d"
+	default:
+		return "a/d/n"
+	}
+}
+
+// ZZVerifC01Pairs: two-operation histories (any two of the 13 operation kinds)
+// over the existing nodes and fresh names of the populated tree: the second
+// operation meets the state the first one left (e.g. write after remove,
+// mkdir after copy, remove after write below).
+func ZZVerifC01Pairs() {
+	fs, _ := NewFilespace()
+	ref := reftree.NewRoot()
+	zzPrelude(fs, ref)
+	zzTemplates = true
+	if zzStep(fs, ref, zzNOps) {
+		return
+	}
+	if zzStep(fs, ref, zzNOps) {
+		return
+	}
+	nd.Reach("C01/pairs-end")
 }
 
 // ZZVerifC01CopyDeep: copies are deep. The populated tree (with the empty
